@@ -10,7 +10,8 @@ keys); the history is validated by TLC against TraceFrontend.tla, which
 accepts an observation only if it equals what was observed before for that
 key.  Keys: class sets with several pattern classes per family, documents
 printing random() / randint() under several seeds, documents that fail with
-several element errors (the report order is part of the bytes), examples."""
+several element errors (the report order is part of the bytes), attribute-rich
+elements (root included) succeeding and failing, examples."""
 import glob
 import json
 import os
@@ -50,6 +51,21 @@ def keys(rnd, tier):
         n = rnd.randint(3, 9)
         body = "".join(f'<rect id="e{i}" xy="#missing{i}|h" wh="{{{{1 +}}}}"/>' if i % 2 else f'<rect xy="#nowhere{i}@tl" wh="2"/>' for i in range(n))
         out.append(("errors", f"<svg>{body}</svg>", {}))
+    # attribute-rich elements (root included): attributes live in maps as well as in ordered
+    # lists, and the bytes - output or error text - must not show a map's iteration order
+    extra = ["data-a", "role", "preserveAspectRatio", "data-z", "aria-label", "tabindex", "data-k", "lang", "opacity", "data-b", "visibility", "cursor"]
+    for k in range(6 if tier == "quick" else 24):
+        def attrs(m):
+            return " ".join(f'{a}="v{i}"' for i, a in enumerate(rnd.sample(extra, m)))
+        body = (f'<rect id="a" wh="4" {attrs(5)}/><g id="g" {attrs(4)}><circle r="2" {attrs(6)}/></g><text xy="0 9" text="t" {attrs(5)}/>'
+                f'<line start="#a" end="#g" {attrs(4)}/><reuse href="#a" x="9" {attrs(3)}/><use href="#a" {attrs(3)}/>')
+        out.append(("attrs", f'<svg {attrs(rnd.choice([2, 4, 7]))}>{body}</svg>', {}))
+        out.append(("attrs", f'<svg id="r" class="c d-fill-red" {attrs(3)}>{body}</svg>', {"add_auto_styles": k % 2 == 0}))
+        # ... and the report when such an element fails
+        el = rnd.choice(['<line start="#nowhere" end="#missing" {A}/>', '<polyline start="#a@r" end="#missing@l" {A}/>', '<reuse href="#nowhere" {A}/>',
+                         '<rect xy="#nowhere|h" wh="2" {A}/>', '<path d="M 0 0 Q 1" {A}/>', '<text xy="#nowhere@c" text="t" {A}/>',
+                         '<g {A}><rect wh="{{{{1 +}}}}"/></g>', '<use href="#nowhere" {A}/>'])
+        out.append(("errors", '<svg><rect id="a" wh="4"/>' + el.replace("{A}", attrs(6)) + "</svg>", {}))
     for f in sorted(glob.glob(os.path.join(vlib.REPO, "examples", "*.xml"))):
         out.append(("example", open(f, encoding="utf-8").read(), {}))
     # the same document under configurations that differ in a single field
